@@ -13,7 +13,7 @@ from ..persist import IDENTITY, PersistEngine
 from ..report import RuleResult
 from ..tables import WriterTables
 from ..textile import FormatDoc
-from ._c03_engine import RobustPersistEngine, const_route, gateway_args, has_gateway_kw
+from ._c03_engine import RobustPersistEngine, gateway_args, has_gateway_kw, route_values
 
 
 def families(ctx):
@@ -296,8 +296,8 @@ def rule_w2(ctx) -> RuleResult:
         recv, a1 = gateway_args(p, call)
         if recv is None or a1 is None:
             continue
-        route = const_route(p, fn, a1, at=call)
-        if route is None:
+        routes_here = route_values(p, fn, a1, at=call)
+        if routes_here is None:
             res.instances.append(f"{fn.qualname}:{call.lineno} dynamic route {unparse(a1)}")
             continue
         where = f"{fn.module.relpath}:{call.lineno}"
@@ -306,23 +306,24 @@ def rule_w2(ctx) -> RuleResult:
         classes = []
         if isinstance(recv, ast.Name) and recv.id == fn.self_name and fn.cls is not None:
             classes = [c for c in p.subclasses(fn.cls)]
-        ok = True
-        if route in t.array_routes and not has_gateway_kw(p, call, "channel") and not has_gateway_kw(p, call, "values"):
-            for K in classes:
-                m = K.lookup(route)
-                # only classes on which this function is the one reached
-                if m is None or m[1] != "prop":
-                    # function might be defined on a base that does not own the property (not the case today)
-                    continue
-                has_field = _has_init_field(K, "_" + route)
-                if not has_field:
-                    ok = False
-                    res.find(fn.cls.name, fn.name, f"route {route}: class {K.name} has no field _{route}", where,
-                             f"write_array_attribute reads getattr(entity, '_{route}') but {K.name} never defines it")
-        elif route not in t.routes and route not in ("attributes", "index", "data"):
-            # falls to write_attributes: legitimate only as a spelling of 'attributes'
-            res.notes.append(f"{where}: route {route!r} is not a dispatcher route (falls through to write_attributes)")
-        res.inst(f"{fn.qualname}:{call.lineno} route={route!r}", ok=ok)
+        for route in routes_here:  # one literal, or each element of the literal sequence a loop hands over
+            ok = True
+            if route in t.array_routes and not has_gateway_kw(p, call, "channel") and not has_gateway_kw(p, call, "values"):
+                for K in classes:
+                    m = K.lookup(route)
+                    # only classes on which this function is the one reached
+                    if m is None or m[1] != "prop":
+                        # function might be defined on a base that does not own the property (not the case today)
+                        continue
+                    has_field = _has_init_field(K, "_" + route)
+                    if not has_field:
+                        ok = False
+                        res.find(fn.cls.name, fn.name, f"route {route}: class {K.name} has no field _{route}", where,
+                                 f"write_array_attribute reads getattr(entity, '_{route}') but {K.name} never defines it")
+            elif route not in t.routes and route not in ("attributes", "index", "data"):
+                # falls to write_attributes: legitimate only as a spelling of 'attributes'
+                res.notes.append(f"{where}: route {route!r} is not a dispatcher route (falls through to write_attributes)")
+            res.inst(f"{fn.qualname}:{call.lineno} route={route!r}", ok=ok)
     # the array branch must evaluate the public getter before it reads the backing field: setters such as Curve.parts
     # null the backing field and rely on the getter to recompute it at write time
     wa = t.writer.methods["write_array_attribute"]
@@ -593,6 +594,20 @@ def _param_classes(p, fn, name):
 FORWARDING = {"update_field", "update_concatenated_field", "update_attributes"}
 
 
+def _writer_ref(e) -> bool:
+    """The expression denotes one of the forwarding writer functions whatever it evaluates to: a plain reference, a
+    conditional expression between two of them, a pick from a literal table of them."""
+    if isinstance(e, (ast.Attribute, ast.Name)):
+        return (e.attr if isinstance(e, ast.Attribute) else e.id) in FORWARDING
+    if isinstance(e, ast.IfExp):
+        return _writer_ref(e.body) and _writer_ref(e.orelse)
+    if isinstance(e, ast.Subscript) and isinstance(e.value, ast.Dict) and e.value.values:
+        return all(_writer_ref(v) for v in e.value.values)
+    if isinstance(e, ast.Call) and isinstance(e.func, ast.Attribute) and e.func.attr == "get" and isinstance(e.func.value, ast.Dict) and e.func.value.values:
+        return all(_writer_ref(v) for v in e.func.value.values) and all(_writer_ref(a) for a in e.args[1:2]) and len(e.args) == 2
+    return False
+
+
 def _forwards_pred(ctx, fn, ent, attr, must, depth=0):
     """Predicate on calls of `fn` (a normalised view): the call hands (ent, attr) unchanged to a writer — directly
     (`<concatenator>.update_attributes(ent, attr)`), through a wrapper given the writer function first
@@ -608,7 +623,7 @@ def _forwards_pred(ctx, fn, ent, attr, must, depth=0):
         kws = {k.arg: text(k.value) for k in c.keywords if k.arg is not None}
         fname = c.func.attr if isinstance(c.func, ast.Attribute) else getattr(c.func, "id", "")
         if fname not in FORWARDING:
-            if pos and pos[0].split(".")[-1] in FORWARDING:
+            if c.args and not isinstance(c.args[0], ast.Starred) and _writer_ref(expanded(c.args[0], fn.node, defs)):
                 pos = pos[1:]  # the writer function travels as the first argument of a wrapper
             else:
                 return _helper_forwards(c, pos, kws)
@@ -772,6 +787,30 @@ def rule_spec(ctx) -> RuleResult:
     return res
 
 
+def _receiver_classes(p, fn, rc):
+    """Classes the receiver (alias-expanded text) can be an instance of, when that is decided by the code: `self`, a
+    parameter annotated with package classes, an object built in place by a class of the package.  None when unknown."""
+    try:
+        e = ast.parse(rc, mode="eval").body
+    except SyntaxError:
+        return None
+    if isinstance(e, ast.Name):
+        if fn.cls is not None and e.id == fn.self_name:
+            return list(p.subclasses(fn.cls))
+        cs = _param_classes(p, fn, e.id)
+        if cs:
+            out = []
+            for c in cs:
+                out += [x for x in p.subclasses(c) if x not in out]
+            return out
+        return None
+    if isinstance(e, ast.Call):
+        r = p.resolve_expr(fn.module, e.func)
+        if r and r[0] == "class":
+            return list(p.subclasses(r[1]))
+    return None
+
+
 MUTATING_METHODS = {"sort", "fill", "put", "resize", "itemset", "update", "pop", "clear", "setdefault", "append", "extend", "remove", "insert"}
 
 
@@ -876,6 +915,9 @@ def rule_inplace(ctx) -> RuleResult:
             for (recv, route, rc), text in muts:
                 if fn.kind in ("getter", "setter") and fn.prop == route and rc == (fn.self_name or "self"):
                     continue  # the accessor builds / normalises its own value
+                owners = _receiver_classes(p, fn, rc)
+                if owners is not None and not any((K.lookup(route) or (None, None))[1] == "prop" for K in owners):
+                    continue  # a plain field that shares the attribute's name (an accumulator, a record): no getter hands it out
                 if g is None:
                     g = CFG(fn.node)
 
